@@ -74,7 +74,7 @@ def contract_cut(vc, shape, pre=('inv',), post=('inv',), keep=CONFIG_FIELDS, cou
         if ('alias', name) not in vc.probed:
             vc.probed.add(('alias', name))
             vc.alias_obligation(ctx, 'call-' + name)
-        havoc_state(I, ctx, args[0], shape, keep)
+        havoc_state(I, ctx, args[0], shape, keep, logged=1 if (len(args) > 1 and args[1] is not None and not isinstance(args[1], Choice) and fn.qual.rsplit('.', 1)[-1].startswith('_update_')) else 0)
         for comp in post:
             assume_clause(vc, ctx, comp, b)
         return result(I, ctx, fn, args, kwargs, node) if result is not None else Opaque('result-of-' + name)
